@@ -204,6 +204,12 @@ pub fn hex(bytes: &[u8]) -> String {
 /// CPU time consumed by the calling thread, in nanoseconds
 /// (CLOCK_THREAD_CPUTIME_ID: independent of machine load).
 pub fn thread_cpu_ns() -> u64 {
+    if cfg!(miri) {
+        // Miri does not model per-thread cpu clocks; fall back to its virtual
+        // monotonic clock.
+        static T0: std::sync::OnceLock<Instant> = std::sync::OnceLock::new();
+        return T0.get_or_init(Instant::now).elapsed().as_nanos() as u64;
+    }
     let mut ts = libc::timespec {
         tv_sec: 0,
         tv_nsec: 0,
